@@ -84,6 +84,8 @@ pub trait Prop: 'static {
     const PART: &'static str;
     const RULE: &'static str;
     const HANG_IS_VIOLATION: bool = false;
+    /// per-part watchdog in seconds (0 = the global default, OXV_WATCHDOG_S or 180)
+    const WATCHDOG_S: u64 = 0;
     const CHOICE_LEN: usize = 256;
     fn random_cases(tier: Tier) -> usize;
     fn gen(ch: &mut Ch, tier: Tier) -> Self::Case;
@@ -510,11 +512,16 @@ pub fn run_part<P: Prop>(opts: &Opts) -> PartReport {
             for s in &slots {
                 let g = s.lock().unwrap();
                 if let Some((t0, js)) = &*g {
-                    if t0.elapsed() > opts.watchdog {
+                    let wd = if P::WATCHDOG_S > 0 {
+                        Duration::from_secs(P::WATCHDOG_S)
+                    } else {
+                        opts.watchdog
+                    };
+                    if t0.elapsed() > wd {
                         let sig = "hang";
                         let detail = format!(
                             "case did not finish within the {} s watchdog",
-                            opts.watchdog.as_secs()
+                            wd.as_secs()
                         );
                         let p = write_replay::<P>(opts, js, sig, &detail);
                         if P::HANG_IS_VIOLATION && opts.is_known(P::ID, sig).is_none() {
@@ -564,8 +571,33 @@ pub fn replay_part<P: Prop>(opts: &Opts, doc: &Value) -> Option<Vec<(String, Str
         return None;
     }
     let case: P::Case = serde_json::from_value(doc["case"].clone()).ok()?;
-    let mut ctx = Ctx::default();
-    let _ = guarded(|| P::check(&case, &mut ctx));
+    // run the oracle on a worker thread so that a hang can be reported instead of blocking
+    let wd = if P::WATCHDOG_S > 0 {
+        Duration::from_secs(P::WATCHDOG_S)
+    } else {
+        opts.watchdog
+    };
+    let (tx, rx) = std::sync::mpsc::channel();
+    let case2 = case.clone();
+    std::thread::Builder::new()
+        .stack_size(64 << 20)
+        .spawn(move || {
+            let mut ctx = Ctx::default();
+            let _ = guarded(|| P::check(&case2, &mut ctx));
+            let _ = tx.send(ctx);
+        })
+        .ok()?;
+    let ctx = match rx.recv_timeout(wd) {
+        Ok(c) => c,
+        Err(_) => {
+            let detail = format!("case did not finish within the {} s watchdog", wd.as_secs());
+            if P::HANG_IS_VIOLATION && opts.is_known(P::ID, "hang").is_none() {
+                return Some(vec![("hang".to_string(), detail)]);
+            }
+            out(&format!("INCONCLUSIVE property={} watchdog fired during replay", P::ID));
+            std::process::exit(2);
+        }
+    };
     let mut out_v = Vec::new();
     for (sig, detail) in ctx.problems {
         if opts.is_known(P::ID, &sig).is_some() {
